@@ -25,7 +25,7 @@ func init() { commands["C14"] = runC14 }
 
 type c14Case struct {
 	Cmd     string   `json:"cmd"`      // migrate-diff-sql | migrate-diff-hcl | migrate-validate | migrate-lint | schema-apply-sql | schema-apply-hcl | schema-diff | schema-inspect
-	Dev     string   `json:"dev"`      // missing | empty | table | table-index-trigger | view | revisions | two-tables
+	Dev     string   `json:"dev"`      // missing | empty | table | table-index-trigger | view | revisions | two-tables | virtual-fts | virtual-rtree
 	DirFail int      `json:"dir_fail"` // index of the failing statement of the directory (-1: none)
 	SrcFail int      `json:"src_fail"` // index of the failing statement of the desired SQL schema (-1: none)
 	Objects []string `json:"objects"`  // kinds of objects the sources create: table, index, view, trigger
@@ -38,6 +38,9 @@ var c14DevSetup = map[string][]string{
 	"view":                {"CREATE VIEW only_view AS SELECT 1 AS one"},
 	"revisions":           {"CREATE TABLE atlas_schema_revisions (version text PRIMARY KEY)", "INSERT INTO atlas_schema_revisions VALUES ('1')"},
 	"two-tables":          {"CREATE TABLE a (id int)", "CREATE TABLE b (id int)"},
+	// only virtual tables (and their shadow tables): a full-text index with rows, an R*Tree
+	"virtual-fts":   {"CREATE VIRTUAL TABLE notes USING fts4(body)", "INSERT INTO notes (body) VALUES ('remember the milk'), ('call home')"},
+	"virtual-rtree": {"CREATE VIRTUAL TABLE boxes USING rtree(id, minx, maxx)", "INSERT INTO boxes VALUES (1, 0.0, 1.0)"},
 }
 
 // statements of the migration directory (3 files) and of the desired schema.
@@ -140,7 +143,7 @@ table "extra" {
 
 func c14Cases(e *Env) []c14Case {
 	cmds := []string{"migrate-diff-sql", "migrate-diff-hcl", "migrate-validate", "migrate-lint", "migrate-lint-checkpoint", "migrate-validate-checkpoint", "schema-apply-sql", "schema-apply-hcl", "schema-diff", "schema-inspect"}
-	devs := []string{"missing", "empty", "table", "table-index-trigger", "view", "revisions", "two-tables"}
+	devs := []string{"missing", "empty", "table", "table-index-trigger", "view", "revisions", "two-tables", "virtual-fts", "virtual-rtree"}
 	objsets := [][]string{{"table"}, {"table", "index", "view", "trigger"}}
 	var out []c14Case
 	for _, cmd := range cmds {
@@ -208,7 +211,7 @@ func runC14(e *Env) error {
 	}
 	defer pool.Close()
 	cases := c14Cases(e)
-	e.Res.Rule = "commands {migrate diff (SQL/HCL desired), migrate validate, migrate lint, schema apply (SQL/HCL), schema diff, schema inspect} x dev database {missing, empty, table+rows, table+index+trigger, view only, revision table only, two tables} x object kinds created by the sources {tables | tables+index+view+trigger} x failing statement at EVERY position of the replayed directory and of the desired SQL schema; dev database opened through the sqlitev:// hook (operation trace); monitors: non-empty dev => command fails, no write operation on dev, file bytes identical; empty dev => dump empty afterwards (success or failure); directory bytes unchanged (migrate diff: only a new file + atlas.sum); outcome == Lean model Atlas.Dev; non-trivial = dev database non-empty or a statement fails; distinct by case"
+	e.Res.Rule = "commands {migrate diff (SQL/HCL desired), migrate validate, migrate lint, schema apply (SQL/HCL), schema diff, schema inspect} x dev database {missing, empty, table+rows, table+index+trigger, view only, revision table only, two tables, virtual tables only (fts4 with rows / rtree)} x object kinds created by the sources {tables | tables+index+view+trigger} x failing statement at EVERY position of the replayed directory and of the desired SQL schema; dev database opened through the sqlitev:// hook (operation trace); monitors: non-empty dev => command fails, no write operation on dev, file bytes identical; empty dev => dump empty afterwards (success or failure); directory bytes unchanged (migrate diff: only a new file + atlas.sum); outcome == Lean model Atlas.Dev; non-trivial = dev database non-empty or a statement fails; distinct by case"
 	var mu sync.Mutex
 	viol := func(kind, sig, what, check string, rep any) {
 		mu.Lock()
